@@ -625,6 +625,24 @@ pub fn run(ctx: &Ctx) {
   for (n, d) in LANDS {
     expect!(ctx, l, "direction", format!("land {} direction", n), Land::from_name(n).get_direction().get_name(), d.to_string());
   }
+  // ---- the small enums: code <-> value <-> published name, unknown codes / names refused
+  {
+    use tyme4rs::tyme::enums::{FestivalType, Gender};
+    expect!(ctx, l, "enums", "YinYang", (0..3).map(|c| YinYang::from_code(c).map(|v| v.get_name()).ok()).collect::<Vec<_>>(), vec![Some("阴".to_string()), Some("阳".to_string()), None]);
+    expect!(ctx, l, "enums", "YinYang names", ["阴", "阳", "陰", ""].iter().map(|n| YinYang::from_name(n).map(|v| v == YinYang::from_code(if *n == "阴" { 0 } else { 1 }).unwrap()).ok()).collect::<Vec<_>>(), vec![Some(true), Some(true), None, None]);
+    expect!(ctx, l, "enums", "Gender", (0..3).map(|c| Gender::from_code(c).map(|v| v.get_name()).ok()).collect::<Vec<_>>(), vec![Some("女".to_string()), Some("男".to_string()), None]);
+    expect!(ctx, l, "enums", "Gender names", ["女", "男", "x"].iter().map(|n| Gender::from_name(n).map(|v| v.get_name()).ok()).collect::<Vec<_>>(), vec![Some("女".to_string()), Some("男".to_string()), None]);
+    expect!(ctx, l, "enums", "Side", ["内", "外", "中"].iter().map(|n| Side::from_name(n).map(|v| v.get_name()).ok()).collect::<Vec<_>>(), vec![Some("内".to_string()), Some("外".to_string()), None]);
+    expect!(ctx, l, "enums", "HideHeavenStemType", ["余气", "中气", "本气", "正气"].iter().map(|n| HideHeavenStemType::from_name(n).map(|v| v.get_name()).ok()).collect::<Vec<_>>(), vec![Some("余气".to_string()), Some("中气".to_string()), Some("本气".to_string()), None]);
+    expect!(ctx, l, "enums", "FestivalType", ["日期", "节气", "除夕", "节日"].iter().map(|n| FestivalType::from_name(n).map(|v| v.get_name()).ok()).collect::<Vec<_>>(), vec![Some("日期".to_string()), Some("节气".to_string()), Some("除夕".to_string()), None]);
+    // a hidden stem built from its name reports that name and stem
+    for st in STEMS.iter() {
+      expect!(ctx, l, "enums", format!("HideHeavenStem::from_name {}", st), {
+        let h = tyme4rs::tyme::sixtycycle::HideHeavenStem::from_name(st, HideHeavenStemType::MAIN);
+        (h.get_name(), h.get_heaven_stem().get_name(), h.get_type().get_name())
+      }, (st.to_string(), st.to_string(), "本气".to_string()));
+    }
+  }
   // ---- pillars
   for i in 0..60usize {
     l.states += 1;
